@@ -206,7 +206,9 @@ Inductive gevent :=
 | GWithDone (a : nat) (l : list nat).       (* `async with a:` finished; __aexit__ = stop(): every task of
                                               the set l at the exit of the body is done *)
 
-Record config := mkC { c_limit : nat -> option nat; c_delay : Z }.
+(* per actor: its _restart_limit and its RESTART_DELAY (`self.RESTART_DELAY`: the base-class constant, or the value
+   a subclass or the instance overrides it with) *)
+Record config := mkC { c_limit : nat -> option nat; c_delay : nat -> Z }.
 
 Definition set_tasks st f := mkG f (g_creq st) (g_set st) (g_wait st) (g_fin st) (g_ret st) (g_run st) (g_runret st).
 Definition set_set st f := mkG (g_tasks st) (g_creq st) f (g_wait st) (g_fin st) (g_ret st) (g_run st) (g_runret st).
@@ -268,7 +270,7 @@ Definition gstep (c : config) (st : gstate) (t : Z) (e : gevent) : option gstate
       match le, g_tasks st tid with
       | LCancel, _ => None
       | _, Some (TLoop a s) =>
-          match lstep (c_limit c a) (c_delay c) s t le with
+          match lstep (c_limit c a) (c_delay c a) s t le with
           | Some s' => Some (set_tasks st (updn (g_tasks st) tid (Some (TLoop a s'))))
           | None => None
           end
